@@ -200,4 +200,201 @@ theorem runHistT_spec {f : Nat} {s s' : Sim} {sts : List Step} {tr : List (Ev ×
         obtain ⟨hw₂, ht₂, hl₂⟩ := ih hw₁ h₂
         exact ⟨hw₂, ht₁.trans ht₂, by rw [hl₂, hl₁]; simp [List.append_assoc]⟩
 
+/-! ### ids on the list are unique; a normal `run_until(T)` takes every entry with time `≤ T` off the list -/
+
+theorem ids_nodup_inj {l : List Ev} (hnd : (ids l).Nodup) {a b : Ev} (ha : a ∈ l) (hb : b ∈ l) (hab : a.id = b.id) :
+    a = b := by
+  induction l with
+  | nil => simp at ha
+  | cons x xs ih =>
+    simp only [ids, List.map_cons, List.nodup_cons, List.mem_map, not_exists, not_and] at hnd
+    rcases List.mem_cons.mp ha with rfl | ha' <;> rcases List.mem_cons.mp hb with rfl | hb'
+    · rfl
+    · exact absurd hab.symm (hnd.1 b hb')
+    · exact absurd hab (hnd.1 a ha')
+    · exact ih hnd.2 ha' hb'
+
+theorem acc_ids_nodup {s : Sim} (ha : Acc s) : (ids s.pending).Nodup := by
+  rw [List.nodup_iff_count]
+  intro i
+  have hc := ha i
+  simp only [List.count_nil, Nat.add_zero] at hc
+  split at hc <;> omega
+
+/-- every entry that is on the list with time `≤ T` — live, cancelled or dead — is off the list after a `run_until(T)` that
+    returns normally (it was executed or discarded: by the accounting its id is in the log or among the discarded ids) -/
+theorem runUntil_consumes_due {f : Nat} {s s' : Sim} {T : Int} (hw : WF s) (ha : Acc s) (hr : runUntil f s T = some s')
+    (hn : s'.raised = none) {e : Ev} (he : e ∈ s.pending) (heT : e.time ≤ T) :
+    e.id ∉ ids s'.pending ∧ s.nextId ≤ s'.nextId := by
+  obtain ⟨tr, htr⟩ := runUntilT_of_runUntil hr
+  have ho := (runUntilT_traced hw htr).origin
+  refine ⟨?_, ho.2⟩
+  intro hmem
+  obtain ⟨y, hy, hyi⟩ := List.mem_map.mp hmem
+  have hyi' : y.id = e.id := hyi
+  have hlate := runUntil_nothing_due hw hr hn y hy
+  rcases ho.1 y hy with ⟨x₀, hx₀, hk⟩ | hge
+  · have hxe : x₀ = e := ids_nodup_inj (acc_ids_nodup ha) hx₀ he (by rw [← hk.2.2]; exact hyi')
+    subst hxe
+    have h1 : y.time = x₀.time := hk.1
+    omega
+  · have := hw.idlt e he; omega
+
+/-! ### the recorded counters of a history's trace -/
+
+theorem runStepT_born {f : Nat} {s s' : Sim} {st : Step} {tr : List (Ev × Nat)} (hw : WF s)
+    (h : runStepT f s st = some (s', tr)) : ∀ y ∈ tr, y.1.id < y.2 ∧ y.1.cancelled = false := by
+  cases st with
+  | cmd c =>
+    simp only [runStepT, Option.some.injEq, Prod.mk.injEq] at h
+    obtain ⟨_, rfl⟩ := h; simp
+  | «until» t =>
+    simp only [runStepT] at h
+    exact fun y hy => ⟨(runUntilT_born hw h y hy).1, (runUntilT_born hw h y hy).2.1⟩
+  | «for» d =>
+    simp only [runStepT] at h
+    exact fun y hy => ⟨(runUntilT_born hw h y hy).1, (runUntilT_born hw h y hy).2.1⟩
+  | next =>
+    simp only [runStepT, Option.some.injEq] at h
+    have h2 : tr = (runNextT s).2 := by rw [h]
+    subst h2
+    unfold runNextT
+    split
+    · simp
+    · rename_i e rest hp
+      intro y hy
+      simp only [List.mem_singleton] at hy; subst hy
+      exact ⟨hw.idlt e (popLive_mem hp).1, (popLive_decomp hp).2⟩
+  | caught =>
+    simp only [runStepT, Option.some.injEq, Prod.mk.injEq] at h
+    obtain ⟨_, rfl⟩ := h; simp
+
+/-- the number recorded with a traced event really is an id counter value at its pop: the event itself is older -/
+theorem runHistT_born {f : Nat} {s s' : Sim} {sts : List Step} {tr : List (Ev × Nat)} (hw : WF s)
+    (h : runHistT f s sts = some (s', tr)) : ∀ y ∈ tr, y.1.id < y.2 ∧ y.1.cancelled = false := by
+  induction sts generalizing s tr with
+  | nil =>
+    simp only [runHistT, Option.some.injEq, Prod.mk.injEq] at h
+    obtain ⟨_, rfl⟩ := h; simp
+  | cons st sts ih =>
+    simp only [runHistT] at h
+    split at h
+    · simp at h
+    · rename_i s₁ tr₁ h₁
+      split at h
+      · simp at h
+      · rename_i s₂ tr₂ h₂
+        simp only [Option.some.injEq, Prod.mk.injEq] at h
+        obtain ⟨rfl, rfl⟩ := h
+        intro y hy
+        rcases List.mem_append.mp hy with hy | hy
+        · exact runStepT_born hw h₁ y hy
+        · exact ih (runStepT_spec hw h₁).1 h₂ y hy
+
+/-! ### the traced history erased is the plain history; every `ReachableFrom` history is one -/
+
+def runStep (f : Nat) (s : Sim) : Step → Option Sim
+  | .cmd c => some (doCmd s c)
+  | .until t => runUntil f s t
+  | .for d => runUntil f s (s.now + d)
+  | .next => some (runNext s)
+  | .caught => some (caught s)
+
+/-- a history without trace: nothing but the model's own operations, one after the other -/
+def runHist (f : Nat) : Sim → List Step → Option Sim
+  | s, [] => some s
+  | s, st :: sts =>
+    match runStep f s st with
+    | none => none
+    | some s₁ => runHist f s₁ sts
+
+theorem runNextT_fst (s : Sim) : (runNextT s).1 = runNext s := by unfold runNextT; split <;> rfl
+
+theorem runStepT_erase (f : Nat) (s : Sim) (st : Step) : (runStepT f s st).map (·.1) = runStep f s st := by
+  cases st with
+  | cmd c => rfl
+  | «until» t => exact runUntilT_erase f s t
+  | «for» d => exact runUntilT_erase f s _
+  | next => simp [runStepT, runStep, runNextT_fst]
+  | caught => rfl
+
+theorem runHistT_erase (f : Nat) (s : Sim) (sts : List Step) : (runHistT f s sts).map (·.1) = runHist f s sts := by
+  induction sts generalizing s with
+  | nil => rfl
+  | cons st sts ih =>
+    simp only [runHistT, runHist]
+    rw [← runStepT_erase]
+    cases h1 : runStepT f s st with
+    | none => rfl
+    | some q =>
+      obtain ⟨s₁, tr₁⟩ := q
+      simp only [Option.map_some]
+      rw [← ih]
+      cases runHistT f s₁ sts with
+      | none => rfl
+      | some q2 => rfl
+
+theorem runHistT_of_runHist {f : Nat} {s s' : Sim} {sts : List Step} (h : runHist f s sts = some s') :
+    ∃ tr, runHistT f s sts = some (s', tr) := by
+  have := runHistT_erase f s sts
+  rw [h] at this
+  cases hT : runHistT f s sts with
+  | none => simp [hT] at this
+  | some p =>
+    simp only [hT, Option.map_some, Option.some.injEq] at this
+    exact ⟨p.2, by rw [← this]⟩
+
+theorem runStep_fuel_le {f g : Nat} {s s' : Sim} {st : Step} (hfg : f ≤ g) (h : runStep f s st = some s') :
+    runStep g s st = some s' := by
+  cases st with
+  | cmd c => exact h
+  | «until» t => exact runUntil_fuel_le hfg h
+  | «for» d => exact runUntil_fuel_le hfg h
+  | next => exact h
+  | caught => exact h
+
+theorem runHist_fuel_le {f g : Nat} {s s' : Sim} {sts : List Step} (hfg : f ≤ g) (h : runHist f s sts = some s') :
+    runHist g s sts = some s' := by
+  induction sts generalizing s with
+  | nil => exact h
+  | cons st sts ih =>
+    simp only [runHist] at h ⊢
+    split at h
+    · simp at h
+    · rename_i s₁ h₁
+      simp only [runStep_fuel_le hfg h₁]
+      exact ih h
+
+theorem runHist_snoc {f : Nat} {s s₁ s' : Sim} {sts : List Step} {st : Step} (h : runHist f s sts = some s₁)
+    (h2 : runStep f s₁ st = some s') : runHist f s (sts ++ [st]) = some s' := by
+  induction sts generalizing s with
+  | nil =>
+    simp only [runHist, Option.some.injEq] at h; subst h
+    simp only [List.nil_append, runHist, h2]
+  | cons a as ih =>
+    simp only [runHist] at h
+    split at h
+    · simp at h
+    · rename_i sa ha
+      simp only [List.cons_append, runHist, ha]
+      exact ih h
+
+/-- every history `ReachableFrom` speaks about is a list of steps run by `runHist` (hence has a `runHistT` trace) -/
+theorem reachableFrom_runHist {s s' : Sim} (hr : ReachableFrom s s') : ∃ f sts, runHist f s sts = some s' := by
+  induction hr with
+  | refl => exact ⟨0, [], rfl⟩
+  | cmd c _ ih =>
+    obtain ⟨f, sts, h⟩ := ih
+    exact ⟨f, sts ++ [.cmd c], runHist_snoc h rfl⟩
+  | @«until» s₁ s₂ g T _ _ hrun ih =>
+    obtain ⟨f, sts, h⟩ := ih
+    have h2 : runStep (max f g) s₁ (.until T) = some s₂ := runUntil_fuel_le (Nat.le_max_right f g) hrun
+    exact ⟨max f g, sts ++ [.until T], runHist_snoc (runHist_fuel_le (Nat.le_max_left f g) h) h2⟩
+  | next _ ih =>
+    obtain ⟨f, sts, h⟩ := ih
+    exact ⟨f, sts ++ [.next], runHist_snoc h rfl⟩
+  | caught _ ih =>
+    obtain ⟨f, sts, h⟩ := ih
+    exact ⟨f, sts ++ [.caught], runHist_snoc h rfl⟩
+
 end Mesa.Devs
